@@ -523,8 +523,29 @@ class RPSpec(Spec):
         obj = self.cls()(mat(m["x"]), **self.kw(m))
         return obj
 
+    SETTERS = {"threshold": "set_fixed_threshold",
+               "threshold_std": "set_fixed_threshold_std",
+               "recurrence_rate": "set_fixed_recurrence_rate",
+               "local_recurrence_rate": "set_fixed_local_recurrence_rate",
+               "adaptive_neighborhood_size":
+                   "set_adaptive_neighborhood_size"}
+
     def post(self, obj, m):
-        pass
+        # the recurrence matrix belongs to the embedding that was in place
+        # when the criterion was last set: same order on the twin
+        if m.get("R_emb") is not None:
+            obj.embedding = mat(m["R_emb"])
+            getattr(obj, self.SETTERS[m["crit"]])(m["cv"])
+        if m.get("emb") is not None and m.get("emb") != m.get("R_emb"):
+            obj.embedding = mat(m["emb"])
+
+    def emb_mut(self):
+        def upd(m, a, obj):
+            m["emb"] = a["E"]
+        return Mut("embedding=", lambda r, m: {
+            "E": {"k": "series", "T": m["n"], "n": r.choice((1, 2)),
+                  "s": r.randrange(10 ** 9)}},
+            lambda obj, a, m: setattr(obj, "embedding", mat(a["E"])), upd)
 
     def crit_muts(self, names=None):
         out = []
@@ -545,13 +566,14 @@ class RPSpec(Spec):
 
             def upd(m, a, obj):
                 m["crit"], m["cv"] = a["c"], a["v"]
+                m["R_emb"] = m.get("emb")
                 if "A" in m:
                     _reinit_update(m)
             out.append(Mut(setters[c], gen, app, upd, True))
         return out
 
     def mutators(self):
-        return self.crit_muts()
+        return self.crit_muts() + [self.emb_mut()]
 
 
 class RNSpec(RPSpec):
@@ -572,6 +594,7 @@ class RNSpec(RPSpec):
         return m
 
     def post(self, obj, m):
+        RPSpec.post(self, obj, m)
         Spec.post(self, obj, m)
 
     def mutators(self):
